@@ -124,7 +124,7 @@ def rand_text(rng, n, full=False):
 
 def rand_payload_for(rng, layout, style=None):
     """Well-formed payload for an expanded layout; exercises every byte and sign bit."""
-    style = style or rng.choice(['rand', 'rand', 'ones', 'zero', 'sign', 'walk'])
+    style = style or rng.choice(['rand', 'rand', 'ones', 'zero', 'sign', 'walk', 'sync'])
     out = bytearray()
     for idx, (n, t) in enumerate(layout):
         w = tok_width(t)
@@ -137,6 +137,8 @@ def rand_payload_for(rng, layout, style=None):
             out += bytes(w)
         elif style == 'sign':
             out += rng.choice([bytes(w - 1) + b'\x80', bytes([255]) * (w - 1) + b'\x7f', bytes([255]) * w, b'\x01' + bytes(w - 1)])
+        elif style == 'sync':
+            out += bytes(rng.choice([0xB5, 0x62]) if (len(out) + k) % 2 == 0 else rng.choice([0x62, 0xB5, 0x24]) for k in range(w))
         elif style == 'walk':
             out += bytes((17 * (len(out) + k) + 3) & 255 for k in range(w))
         else:
